@@ -81,6 +81,7 @@ def main(argv=None):
             work = [(p, None) for p in plist]
         for p, many in work:
             limits = dict(p.pop("_limits", {})) if "_limits" in p else {}
+            capped = bool(limits) or (many is not None and any("_limits" in q for q in many))
             th = time.time()
             if many is not None:
                 res = runner.explore_many(h, many, jobs=args.jobs)
@@ -88,7 +89,9 @@ def main(argv=None):
                 res = runner.explore(h, p, limits=limits, jobs=args.jobs)
             st = res["st"]
             paths = max(1, st.get("paths", 0))
-            inconcl = st.get("unknown", 0) + st.get("unsupported", 0) + st.get("budget", 0) + st.get("timeout", 0)
+            # a per-exploration path cap declared by the harness (_limits) is part of its stated bound: truncated explorations are counted in
+            # the evidence (budget_exhausted) but do not make the run inconclusive; solver 'unknown', unsupported constructs and deadlines do
+            inconcl = st.get("unknown", 0) + st.get("unsupported", 0) + (0 if capped else st.get("budget", 0)) + st.get("timeout", 0)
             share = 1.0 - inconcl / float(paths + st.get("timeout", 0))
             row = {
                 "harness": hn, "params": p, "title": h.title, "paths": st.get("paths", 0), "reached_assertion": st.get("reached", 0),
